@@ -7,7 +7,7 @@ from ..common import eqstar, token
 from ..monitors import find_token, find_token_deep
 
 PLAN = {
-    "quick": {"shards": 8, "cases": 200, "min_nontrivial": 1200, "budget_s": 240},
+    "quick": {"shards": 8, "cases": 250, "min_nontrivial": 1500, "budget_s": 300},
     "thorough": {"shards": 16, "cases": 3500, "min_nontrivial": 30000, "budget_s": 1500},
 }
 RULE = ("a case marks a random subset of fields (text, host, integer, boolean, bytes, secret with sensitive on/off, "
